@@ -219,6 +219,10 @@ class Runner(object):
             else:
                 kw['maxsize'] = cfg['maxsize']
         self.deco = cls(*args, **kw)
+        if cfg.get('copied'):
+            import copy as _copy
+            self.deco = _copy.copy(self.deco)
+            self.note('decorators_copied_before_use')
         self.f = self.deco(self.probe.fn)
         if getattr(self.f, '__wrapped__', None) is not self.probe.fn:
             self.wrapped_mismatch = True
@@ -1007,6 +1011,8 @@ def gen_case(rng, focus, nops=None):
     cfg = {'algo': algo, 'safe': safe, 'maxsize': maxsize,
            'maxsize_positional': rng.random() < 0.5, 'purge': rng.random() < 0.35,
            'keymap': km, 'backend': b}
+    # (the decorator is sometimes a copy.copy of the configured one - e.g. one template decorator applied to many functions)
+    cfg['copied'] = rng.random() < 0.1
     if focus == 'C18':
         if rng.random() < 0.4:
             cfg['tol'] = rng.choice([0, 1, 2]); cfg['deep'] = rng.random() < 0.4
@@ -1361,6 +1367,141 @@ def run_sibling(case):
     return viol
 
 
+class Unstorable(object):
+    """a perfectly good result (hashable, comparable, printable) that no serializer can write"""
+    def __init__(self, n):
+        self.n = n
+
+    def __eq__(self, o):
+        return isinstance(o, Unstorable) and o.n == self.n
+
+    def __ne__(self, o):
+        return not self == o
+
+    def __hash__(self):
+        return hash(('Unstorable', self.n))
+
+    def __repr__(self):
+        return 'Unstorable(%d)' % self.n
+
+    def __reduce_ex__(self, proto):
+        raise TypeError('cannot pickle Unstorable')
+
+
+def unstorable_case(rng):
+    """C07 where the archive *refuses* a result: a bounded cache whose attached archive serializes, and a function
+    that now and then returns something the serializer cannot write.  klepto then lets the purge fail (the call
+    raises and the cache stays over-full) - what it may not do is drop results it could not archive."""
+    b = rng.choice([{'kind': 'file', 'serialized': True, 'protocol': None}, {'kind': 'file', 'serialized': True, 'protocol': 2},
+                    {'kind': 'dir', 'serialized': True, 'protocol': None}, {'kind': 'dir', 'serialized': True, 'fast': True, 'protocol': None},
+                    {'kind': 'dir', 'serialized': True, 'compression': 3, 'protocol': None},
+                    {'kind': 'sql'}])
+    km = rng.choice([k for k in gen.keymap_cfgs() if k['cls'] in ('stringmap', 'hashmap') and not k.get('outer')
+                     and k.get('type') is None])
+    calls = []
+    for _ in range(rng.choice([6, 10, 16, 24])):
+        r = rng.random()
+        if r < 0.2:
+            calls.append(['u', rng.randrange(3)])
+        elif r < 0.27:
+            calls.append(['dump'])
+        else:
+            calls.append(['i', rng.randrange(6)])
+    return {'unstorable': True, 'algo': rng.choice(['lru', 'lfu', 'mru', 'rr']), 'maxsize': rng.choice([1, 2, 3]),
+            'purge': rng.random() < 0.5, 'keymap': km, 'backend': b, 'calls': calls}
+
+
+def run_unstorable(case):
+    viol, cnt = [], {}
+    cwd0 = os.getcwd()
+
+    def note(c, n=1):
+        cnt[c] = cnt.get(c, 0) + n
+
+    def bad(kind, msg, step):
+        viol.append({'property': 'C07', 'kind': kind, 'mech': [], 'case': case, 'step': step, 'msg': msg})
+
+    with Scratch('cu') as root:
+        a = _ka.cache(archive=gen.build_archive(klepto, case['backend'], root))
+        log = []
+        deco = getattr(klepto, case['algo'] + '_cache')(maxsize=case['maxsize'], cache=a, purge=case['purge'],
+                                                        keymap=gen.build_keymap(klepto, case['keymap']))
+
+        scalar = case['backend']['kind'] == 'sql'     # (the sqlite fallback stores scalars only)
+
+        def want(x):
+            if scalar:
+                return x if isinstance(x, Unstorable) else 'R%r' % (x,)
+            return ('R', x)
+
+        def body(x):
+            log.append(x)
+            return want(x)
+        f = deco(body)
+        c = f.__cache__()
+        retr = {}          # key -> result: computed by a call that returned, never cleared
+        note('c07_unstorable_cases')
+        for n, op in enumerate(case['calls']):
+            mem_bad = any(isinstance(v[-1] if isinstance(v, tuple) else v, Unstorable) for v in dict.values(c))
+            if op[0] == 'dump':
+                try:
+                    f.dump()
+                    raised = None
+                except Exception as e:
+                    raised = e
+                x = k = None
+            else:
+                x = Unstorable(op[1]) if op[0] == 'u' else op[1]
+                k = f.key(x)
+                n0 = len(log)
+                try:
+                    r = f(x)
+                    raised = None
+                except Exception as e:
+                    raised = e
+                if raised is None:
+                    if r != want(x):
+                        return viol, cnt        # (colliding keys: another subject)
+                    retr[k] = r
+                    if op[0] == 'u':
+                        note('c07_unstorable_results_returned')
+            mem_bad = mem_bad or op[0] == 'u'
+            if raised is not None:
+                if not mem_bad:
+                    note('c07_unstorable_unexpected_raise')
+                    if os.environ.get('KV_DEBUG'):
+                        import traceback; traceback.print_exception(type(raised), raised, raised.__traceback__); print(case)
+                    return viol, cnt            # klepto failing on storable data is C01's subject, not this leg's
+                note('c07_unstorable_purges_that_raised')
+            mem = dict(dict.items(c))
+            try:
+                arch = dict(c.archive.items())
+            except Exception:
+                note('c07_unstorable_archive_unreadable')
+                return viol, cnt
+            for rk, rv in retr.items():
+                note('c07_unstorable_retrievability_checks')
+                if rk in mem:
+                    if not (mem[rk] == rv):
+                        bad('resident-result-changed', 'step %d: memory[%r] is %r, the function returned %r'
+                            % (n, rk, mem[rk], rv), n)
+                        return viol, cnt
+                elif rk not in arch:
+                    bad('result-lost-when-archive-refused-a-value',
+                        'step %d (%s%s): the result for key %r was computed by a completed call, never cleared, and is now in '
+                        'neither the cache nor its archive; the cache holds an un-serializable result, so the purge '
+                        'could not have archived everything it dropped'
+                        % (n, op[0], ' raised %s' % type(raised).__name__ if raised is not None else '', rk), n)
+                    return viol, cnt
+                elif not (arch[rk] == rv):
+                    bad('archived-result-changed', 'step %d: archive[%r] is %r, the function returned %r'
+                        % (n, rk, arch[rk], rv), n)
+                    return viol, cnt
+        if os.getcwd() != cwd0:
+            os.chdir(cwd0)
+    return viol, cnt
+
+
 def directed_cases(prop):
     """hand-written witnesses of the recorded findings (same runner, same monitors): they keep the
     KNOWN-FINDING lines on every run and simply pass once a defect is repaired"""
@@ -1408,6 +1549,14 @@ def run_shard(prop, tier, seed, shard, nshards, opts):
             res['violations'].extend(viol[:3])
             i += nshards
             continue
+        if prop == 'C07' and i % 16 == 5:
+            viol, cnt = run_unstorable(unstorable_case(rng))
+            res['cases'] += 1
+            for k, v in cnt.items():
+                res['counters'][k] = res['counters'].get(k, 0) + v
+            res['violations'].extend(viol[:3])
+            i += nshards
+            continue
         if prop in REC_PROPS and i % 8 == 7:
             # re-entrant histories: the probe calls itself through the wrapper (recmon)
             from kv import recmon
@@ -1450,6 +1599,8 @@ def replay(v, prop):
     case = v['case']
     if case.get('sibling'):
         return run_sibling(case)
+    if case.get('unstorable'):
+        return run_unstorable(case)[0]
     if case.get('rec'):
         from kv import recmon
         r, viol = recmon.run_case(case, prop)
